@@ -17,6 +17,7 @@ type vpC03Opts struct {
 	kinds   []int
 	twoPods bool
 	pools   bool
+	restart bool // galaxy-ipam restarts (tables rebuilt from the store) after the events were handled, before the resync pass
 }
 
 func (w *vpWorld) appExists(kind int) (bool, int32) {
@@ -223,6 +224,12 @@ func vpC03Lifecycle(o vpC03Opts) {
 	}
 	apiReleased := false
 	w.syncListers()
+	if o.restart {
+		if w.restart() != nil {
+			return
+		}
+		verifReach("restarted-before-resync")
+	}
 	w.resync()
 	verifReach("quiescent")
 	w.checkReleaseContract(kind)
@@ -235,6 +242,11 @@ func vpC03Lifecycle(o vpC03Opts) {
 // BOUND: topology 0; kinds {statefulset, deployment, scalable custom resource TApp, bare pod}; policy symbolic {default, immutable, never}; statefulset and deployment pods optionally use a named pool p1 (no Pool object); pod index 0 or 1, replicas start at 2; workload action {none, scale to symbolic 0..2, delete} before or after the pod ends; pod end {delete, finish+delete, finish}; every pending event handled or lost; symbolic lister lag; then caches catch up and one resync pass
 func VerifC03_q_lifecycle() {
 	vpC03Lifecycle(vpC03Opts{kinds: []int{vpKindSts, vpKindDp, vpKindTApp, vpKindBare}, pools: true})
+}
+
+// BOUND: topology 0; kinds {statefulset, deployment}; policy symbolic {default, immutable, never}, optionally a named pool p1; the lifecycle of VerifC03_q_lifecycle (workload action none / scale / delete before or after the pod ends, events handled or lost) and then a restart of galaxy-ipam (new plugin, tables rebuilt from the store) before the resync pass: what the policy reserves stays reserved across the restart, what it releases is released
+func VerifC03_q_lifecycleAcrossRestart() {
+	vpC03Lifecycle(vpC03Opts{kinds: []int{vpKindSts, vpKindDp}, pools: true, restart: true})
 }
 
 // BOUND: as above with a second pod of the same workload bound alongside
